@@ -93,6 +93,20 @@ namespace RecInt
 
 #include <type_traits>
 
+namespace RecInt
+{
+    /* Sign and magnitude of a built-in scalar operand.
+       __recint_mag(c) is |c| for a negative c, computed in the limb type: it is also right for the
+       minimum of a signed type, where -c overflows (and for types narrower than a limb, where -c
+       is promoted, sign-extended and no longer a magnitude) */
+    template <typename T> inline bool __recint_isneg(const T& c) { return std::is_signed<T>::value && (c < T(0)); }
+    template <typename T> inline typename std::enable_if<std::is_integral<T>::value, limb>::type
+        __recint_mag(const T& c) { return limb(0) - limb(c); }
+    template <typename T> inline typename std::enable_if<!std::is_integral<T>::value, limb>::type
+        __recint_mag(const T& c) { return limb(-c); }
+}
+
+
 /* If typename T is an arithmetic type,
    then template enable and return value is RET */
 #define __RECINT_IS_ARITH(T, ...)    typename std::enable_if<std::is_arithmetic<T>::value, __VA_ARGS__>::type
